@@ -1584,9 +1584,10 @@ Section StepInv.
     destruct (t_mid (c_t cs)) as [ms|] eqn:Emid; try discriminate.
     injection Hs as <-. cbn [cap_of] in Hn.
     constructor; cbn; auto.
-    destruct (ss_is_empty ms); [apply (drop_cap fm _ _ _ _ _ _ _ _ _ _ Hn)|].
-    apply (swap_inv fm _ _ _ _ _ _ _ _ _ _ Hn mb); [reflexivity|]. right.
-    exists ms, t. auto.
+    - destruct (ss_is_empty ms); [apply (drop_cap fm _ _ _ _ _ _ _ _ _ _ Hn)|].
+      apply (swap_inv fm _ _ _ _ _ _ _ _ _ _ Hn mb); [reflexivity|]. right.
+      exists ms, t. auto.
+    - destruct (ss_is_empty ms); [exact Hc|discriminate].
   Qed.
 
   Lemma tstep_handover_inv c bs cs s' :
